@@ -99,6 +99,13 @@ def build_tools(notes):
         if rc != 0:
             notes["translator_errors"].append("gen_harness: " + out.strip())
         shutil.copy(os.path.join(REPO, "go.sum"), os.path.join(ROOT, "harness/go.sum"))
+        # the harness module is replaced onto the tree under test (VERIF_REPO: an isolated copy for background sweeps)
+        gm = os.path.join(ROOT, "harness/go.mod")
+        want = "replace github.com/go-fed/activity => " + REPO
+        txt = open(gm).read()
+        cur = [l for l in txt.splitlines() if l.startswith("replace github.com/go-fed/activity =>")]
+        if cur and cur[0] != want:
+            open(gm, "w").write(txt.replace(cur[0], want))
         rc, out = run(["go", "build", "-tags", "verif", "-o", os.path.join(BIN, "harness"), "."], cwd=os.path.join(ROOT, "harness"), env=GOENV)
         if rc != 0:
             notes["harness_build_error"] = out[-4000:]
